@@ -352,6 +352,8 @@ func (im *Impl) Exec(line string) (out string) {
 		return im.rbPromote()
 	case "rbend":
 		return im.rbEnd()
+	case "cmp":
+		return im.rbCompare()
 	case "clone":
 		return im.clone(w[1], len(w) > 2 && w[2] == "late")
 	case "maxchain":
